@@ -12,6 +12,7 @@ import (
 	"sort"
 	"strconv"
 	"strings"
+	"time"
 	"unicode/utf8"
 
 	"github.com/lrstanley/girc"
@@ -278,11 +279,11 @@ var (
 	cdHostPool      = []string{"", "host.example", "1.2.3.4", "::1", "h/cloak", "a:b"}
 	cdSrcOdd        = []string{" x", "a@b", "a!b", "!", "@", "\xff", "x\r", "a b"}
 	cdKeyPool       = []string{"a", "time", "account", "msgid", "example.com/ddd", "a.b/c", "+client", "+example.com/foo", "draft/label", "k-1", "k_2", "z", "B"}
-	cdKeyOdd        = []string{"", "+", "a b", "a=b", "k;", "caf\xc3\xa9", "@k", "a\x00", "++"}
+	cdKeyOdd        = []string{"", "+", "a b", "a=b", "k;", "caf\xc3\xa9", "@k", "a\x00", "++", "a:b", "a[b", "a{b", "a,b", "a`b", "a@b", "a+b", "Z", "z9-./_"}
 	cdRawValPool    = []string{"", "v", "bbb", `a\sb`, `\:\s\\\r\n`, `\\\\`, `\\s`, `\\n`, `\\r`, `\\:`, `a\\sb\\:c\\\\n`, `\\\s`, `x\\`, "2019-02-21T20:12:03.000Z", "2011-10-19T16:40:51.620Z", "=eq=", "x/y", "~"}
 	cdRawValOdd     = []string{`a\`, `\x`, `\`, `a\bc`, "sp ace", "se;mi", "caf\xc3\xa9", "\x01", `\\\`, "\xff", "a\rb"}
 	cdBackslashVals = []string{`\`, `\\`, `\\\`, `\s`, `\n`, `\r`, `\:`, `\\s`, `\\n`, `C:\new\share`, `C:\report\sales`, `a\:b`, `x\`, `\x`, `\s\n\r\:\\`, `n\s`, `\\\\s`}
-	cdPlainVals     = []string{"", "x", "a b", "a;b", `a\b`, "cr\rlf\n", `; \` + "\r\n", `\\`, `\s`, "  ", ";;", "caf\xc3\xa9", "tab\t", "plain-value_1", `trail\`}
+	cdPlainVals     = []string{"", "x", "a b", "a;b", `a\b`, "cr\rlf\n", `; \` + "\r\n", `\\`, `\s`, "  ", ";;", "caf\xc3\xa9", "tab\t", "plain-value_1", `trail\`, "\x7f", "!", "~", "\x80"}
 )
 
 func cdPickS(r *rand.Rand, xs []string) string { return xs[r.Intn(len(xs))] }
@@ -377,7 +378,7 @@ func cdGenEvCase(r *rand.Rand, odd int) cdEvCase {
 			case 2:
 				v = cdSpecEscape(RandBytes(r, r.Intn(12), `ab; \`+"\r\n:sn"))
 			default:
-				v = RandBytes(r, r.Intn(8), `abc\:sxyz019=/`)
+				v = RandBytes(r, r.Intn(8), `abc:sxyz019=/~!`)
 			}
 			if isOdd() {
 				v = cdPickS(r, cdRawValOdd)
@@ -610,9 +611,18 @@ func init() {
 		},
 		Gen: func(r *rand.Rand) Case { return Case{cdGenLine(r)} },
 		Run: func(c Case) Result {
+			cdSetZone()
+			before := time.Now()
 			e := girc.ParseEvent(c[0])
-			res := Result{Obs: cdShowEvent(e), Sig: cdParseSig(c[0], e)}
-			if e != nil && cdWfEvent(e) {
+			after := time.Now()
+			ast, gl := cdGrammatical(c[0])
+			res := Result{Obs: cdShowEvent(e) + "|gl=" + B(gl), Sig: cdParseSig(c[0], e)}
+			if gl {
+				// a line of the grammar: the parse must be the structure the grammar assigns (C02)
+				res.Sig = "grammatical/" + res.Sig
+				res.Oracle = cdGrammarDiff(ast, cdRefMeaning(ast), e, before, after)
+			}
+			if res.Oracle == "" && e != nil && cdWfEvent(e) {
 				res.Oracle = cdParseStableDiff(e)
 			}
 			return res
@@ -744,6 +754,16 @@ func cdTagsSetRun(c Case, initNil bool) Result {
 
 func cdGenSetOps(r *rand.Rand) []string {
 	var ops []string
+	if r.Intn(25) == 0 { // exactly around the 4094-byte limit: "@k=" + n bytes, then a second tag
+		n := 4086 + r.Intn(10)
+		ops = append(ops, "k", strings.Repeat("v", n))
+		ops = append(ops, cdPickS(r, []string{"j", "a", "zz"}), strings.Repeat("w", r.Intn(6)))
+		if r.Intn(2) == 0 {
+			ops = append(ops, "k", strings.Repeat("v", r.Intn(5)))
+			ops = append(ops, "m", strings.Repeat("x", 4080+r.Intn(16)))
+		}
+		return ops
+	}
 	for i := r.Intn(7); i > 0; i-- {
 		k := cdPickS(r, cdKeyPool)
 		if r.Intn(10) == 0 {
@@ -789,6 +809,11 @@ func init() {
 				Case{"S", "m", "a", "; \\\r\n", "b", "", "a", "x"},
 				Case{"S", "m", "bad key", "v", "k", "caf\xc3\xa9", "k", "\x00"},
 				Case{"S", "m", "k", strings.Repeat("v", 4091)},
+				Case{"S", "m", "k", strings.Repeat("v", 4092)},
+				Case{"S", "m", "k", strings.Repeat("v", 4089), "j", ""},
+				Case{"S", "m", "k", strings.Repeat("v", 4088), "j", ""},
+				Case{"S", "m", "k", strings.Repeat("v", 4086), "j", "w"},
+				Case{"S", "m", "k", strings.Repeat("v", 4087), "j", "w"},
 				Case{"S", "m", "k", strings.Repeat("v", 4090)},
 				Case{"S", "m", "a", strings.Repeat("v", 2044), "b", strings.Repeat("v", 2044)},
 				Case{"S", "m", "a", strings.Repeat("v", 2043), "b", strings.Repeat("v", 2043), "c", ""},
